@@ -16,7 +16,7 @@ def claimed():
     return [c["property_id"] for c in man["checks"]]
 
 
-def checks_on_patch(patch, props=None, nlines=6):
+def checks_on_patch(patch, props=None, nlines=6, jobs=1):
     """-> {prop: (exit code, report lines)} or None when the patch does not apply to the current tree"""
     d = make_scratch("/repo")
     try:
@@ -24,11 +24,12 @@ def checks_on_patch(patch, props=None, nlines=6):
         if r.returncode != 0:
             return None
         env = dict(os.environ, NSSA_REPO=d, NSSA_NO_EVIDENCE="1", VERIF_TIER="quick")
-        res = {}
-        for p in props or claimed():
+        def one(p):
             rc, out = sh(f"/verif/check {p}", cwd="/verif", env=env, timeout=600)
             out = out.replace(d + "/", "")
-            res[p] = (rc, [l for l in out.splitlines() if l.startswith(("VIOLATION", "  ", "ANALYSIS-ERROR"))][:nlines])
-        return res
+            return p, (rc, [l for l in out.splitlines() if l.startswith(("VIOLATION", "  ", "ANALYSIS-ERROR"))][:nlines])
+        from concurrent.futures import ThreadPoolExecutor
+        with ThreadPoolExecutor(jobs) as ex:
+            return dict(ex.map(one, props or claimed()))
     finally:
         shutil.rmtree(d, ignore_errors=True)
